@@ -97,6 +97,14 @@ class C18:
         for _ in range(300):
             body = "".join(rng.choice(hexa) for _ in range(64))
             cases.append({"kind": "checksum", "s": list(("sha256:" + body).encode())})
+        # a well-formed checksum followed or preceded by more fields: every extra ':' must reject
+        for _ in range(40):
+            body = "".join(rng.choice(hexa) for _ in range(64))
+            for tail in [":", "::", ":00", ":zz", ":" + body, ":sha256:" + body, ": ", ":\n"]:
+                cases.append({"kind": "checksum", "s": list(("sha256:" + body + tail).encode())})
+            for head in [":", "sha256:", "x:", ":sha256:"]:
+                cases.append({"kind": "checksum", "s": list((head + "sha256:" + body).encode())})
+            cases.append({"kind": "checksum", "s": list(("sha256:" + body[:32] + ":" + body[32:]).encode())})
         # toml round trip
         for _ in range(1500 if tier == "thorough" else 200):
             arts = []
